@@ -2,8 +2,9 @@ import RQ.Model.Args
 /-!
 # C14 — --mmap, verbosity, colour, statistics and analyses never change the result
 
-In the model the options `-q`, `-v`, `--mmap`, `--stats`, `--color X`, `-A X` are recognised and
-dropped: the configuration handed to the driver has no field for them.  `C14_options` states this as a
+In the model the options `-q`, `-v`, `--mmap`, `--stats`, `--color X`, `-A X` (with a value the tool
+accepts; other values are refused: `Inv.bad`, `Inv.badLate`) are recognised and dropped: the
+configuration handed to the driver has no field for them.  `C14_options` states this as a
 theorem about the option model: removing all of them from an invocation, wherever they stand — or
 adding any of them anywhere — gives the same configuration, hence (`C14_push`) the same outcome and the
 same world.  That the *code* behaves like this model — whose driver takes no presentation option at
@@ -29,7 +30,7 @@ theorem C14_options : ∀ (toks : List Tok) (i : Inv),
         (t :: r).filter (fun t => !t.isPresentation) = r.filter (fun t => !t.isPresentation) := by
       intro h; simp [List.filter, h]
     cases t with
-    | threads n => rw [keep rfl]; simp only [parse, ih]
+    | threads n => rw [keep rfl]; simp only [parse]; split <;> exact ih _
     | backup x =>
       rw [keep rfl]; simp only [parse]
       split
@@ -39,7 +40,13 @@ theorem C14_options : ∀ (toks : List Tok) (i : Inv),
         · split
           · exact ih _
           · rfl
-    | backupCount x => rw [keep rfl]; simp only [parse]; split <;> exact ih _
+    | backupCount x =>
+      rw [keep rfl]; simp only [parse]
+      split
+      · exact ih _
+      · split
+        · exact ih _
+        · rfl
     | fuzz n => rw [keep rfl]; simp only [parse, ih]
     | dryRun => rw [keep rfl]; simp only [parse, ih]
     | all => rw [keep rfl]; simp only [parse, ih]
@@ -47,8 +54,14 @@ theorem C14_options : ∀ (toks : List Tok) (i : Inv),
     | verbose => rw [drop rfl]; simp only [parse, ih]
     | mmap => rw [drop rfl]; simp only [parse, ih]
     | stats => rw [drop rfl]; simp only [parse, ih]
-    | color x => rw [drop rfl]; simp only [parse, ih]
-    | analyze x => rw [drop rfl]; simp only [parse, ih]
+    | color x =>
+      cases hv : validColor x with
+      | true => rw [drop (by simp [Tok.isPresentation, hv])]; simp only [parse, hv, if_true, ih]
+      | false => rw [keep (by simp [Tok.isPresentation, hv])]; simp only [parse, hv]; rfl
+    | analyze x =>
+      cases hv : validAnalysis x with
+      | true => rw [drop (by simp [Tok.isPresentation, hv])]; simp only [parse, hv, if_true, ih]
+      | false => rw [keep (by simp [Tok.isPresentation, hv])]; simp only [parse, hv, Bool.false_eq_true, if_false]; exact ih _
     | free x => rw [keep rfl]; simp only [parse]; split <;> exact ih _
     | unknown x => rw [keep rfl]; simp only [parse]
 
@@ -64,7 +77,8 @@ theorem C14_same (a b : List Tok) (w : World)
   rw [← C14_push a, ← C14_push b, h]
 
 example : (tokenize ["-q", "--mmap", "--backup", "always", "-v", "--color", "always", "-A", "multiapply", "--stats", "-a"]).filter
-    (fun t => !t.isPresentation) = [.backup "always", .all] := by decide
+    (fun t => !t.isPresentation) = [.backup "always", .all] := by
+  decide
 
 #print axioms C14_options
 #print axioms C14_push
